@@ -41,7 +41,7 @@ CHECKS = {
             "Configurations with several non-root owners are built repeatedly in-process and in freshly started processes (different hash seeds, TZ, cwd); distinct outputs per configuration must be 1 and every timestamp <= source date.",
             "deterministic signature schemes (Ed25519/RSA PKCS#1/ECDSA RFC6979) as measured"),
     "C12": ("exploration", "runtime monitor: file-system jail snapshot differ + panic hook",
-            "Built and hostile hand-encoded packages are extracted inside a jail with canaries; a recursive before/after snapshot outside the target must be identical and the target must match the package.",
+            "Built and hostile hand-encoded packages are extracted inside a jail with canaries; a recursive before/after snapshot outside the target must be identical and the target must match the package; built packages are also extracted by an unprivileged child process (uid 65534, four umasks).",
             "hostile inputs are constructed so that escapes land inside the jail"),
     "C13": ("exploration", "runtime monitor: byte-level rpmvercmp port as reference + total-preorder matrix test (bounded-exhaustive + random)",
             "Every ordered pair of strings over a 12-symbol alphabet up to a bounded length and millions of random long pairs are compared with a port of rpm's C routine; the full matrix is tested to be a total preorder; EVR/NEVRA rules on enumerated tuples.",
